@@ -319,10 +319,13 @@ def runOp (line : String) : Option String :=
           let outcomes ← pList pSvc (field "svc" fields)
           let t ← extendTransport {} fields
           let svc : Service := fun i _ _ => outcomes.getD i .decline
-          let (_, evs, _, _) := process k svc t
+          let (e, evs, _, _) := process k svc t
           let calls := evs.filterMap fun | .call s r => some s!"{hex8 s}:{request r}" | _ => none
           let outb := evs.flatMap fun | .write bs => bs | _ => []
-          pure s!"calls={orDash (String.intercalate "," calls)} out={hexBytes outb} peer=ok"
+          -- the serial server is one connection: `serve_until` / `serve_forever` return when the
+          -- request loop fails (the TCP servers only end that connection's task)
+          let peer := if kind = "ser" then (match e with | .failed _ => "failed" | _ => "ok") else "ok"
+          pure s!"calls={orDash (String.intercalate "," calls)} out={hexBytes outb} peer={peer}"
         pure (String.intercalate " | " outs)
       | "srv" :: kind :: fields => do
         let k ← pKind kind
